@@ -84,7 +84,13 @@ FIXED = ["md5_crypt", "apr_md5_crypt", "des_crypt", "ldap_salted_sha1", "ldap_sh
 HEX32 = ("hex_md5", "nthash", "hex_md4", "lmhash")
 C08_PALETTE = ["des_crypt", "bsdi_crypt", "md5_crypt", "apr_md5_crypt", "sha1_crypt", "sha256_crypt", "sha512_crypt", "bcrypt", "bcrypt_sha256",
                "pbkdf2_sha1", "pbkdf2_sha256", "pbkdf2_sha512", "ldap_salted_sha1", "ldap_sha1", "hex_md5", "phpass", "scrypt",
-               "django_pbkdf2_sha256", "django_salted_sha1", "mysql41", "nthash"]
+               "django_pbkdf2_sha256", "django_salted_sha1", "mysql41", "nthash",
+               # second batch (after seeded change C08-e): formats with their own parsing quirks
+               "sun_md5_crypt", "fshp", "ldap_salted_md5", "ldap_salted_sha256", "ldap_salted_sha512", "ldap_md5", "django_salted_md5",
+               "django_pbkdf2_sha1", "atlassian_pbkdf2_sha1", "grub_pbkdf2_sha512", "mssql2000", "mssql2005", "oracle11", "ldap_md5_crypt",
+               "ldap_sha256_crypt", "ldap_sha512_crypt", "ldap_sha1_crypt", "ldap_des_crypt", "ldap_bsdi_crypt", "ldap_bcrypt", "django_bcrypt",
+               "hex_sha1", "hex_sha256", "hex_sha512"]
+HEXLEN = {"hex_md5": 32, "nthash": 32, "hex_sha1": 40, "hex_sha256": 64, "hex_sha512": 128}
 PWS = ["pw", "secret", "Pw", "pässword", "p w", "x", "correct horse"]
 CATS = ["admin", "staff"]
 SUBST = ["$", ".", "/", "0", "A", "z", "=", ",", " ", "\x00", "é", "*"]
@@ -792,8 +798,8 @@ class _StorageRun:
         self.seen = set()
 
     def extract(self, scheme, s):
-        if scheme in ("hex_md5", "nthash"):
-            return extract_hex(s, 32)
+        if scheme in HEXLEN:
+            return extract_hex(s, HEXLEN[scheme])
         return extract(s, only=(scheme,))
 
     def run(self, ops):
@@ -808,7 +814,8 @@ class _StorageRun:
                 oth = None
                 if op["kind"] in ("other_record", "other_scheme"):
                     # a neighbour's record -- of a DIFFERENT password, otherwise verifying it would be right
-                    cand = [r for r in self.records if r["pw"] != rec["pw"] and (op["kind"] == "other_record" or r["scheme"] != rec["scheme"])]
+                    # (mssql2000 is case-insensitive by design: passwords that differ in case only are the same password there)
+                    cand = [r for r in self.records if r["pw"].upper() != rec["pw"].upper() and (op["kind"] == "other_record" or r["scheme"] != rec["scheme"])]
                     if not cand:
                         continue
                     oth = cand[op["pos"] % len(cand)]["hash"]
@@ -855,6 +862,13 @@ class _StorageRun:
                 (re.compile(r"^\$scrypt\$.*?r=\s*\+?([0-9_]+)"), "int", 32),
                 (re.compile(r"^\$scrypt\$.*?p=\s*\+?([0-9_]+)"), "int", 8),
                 (re.compile(r"^_(....)"), "h64le", 30000),
+                (re.compile(r"^\{[Cc][Rr][Yy][Pp][Tt]\}_(....)"), "h64le", 30000),
+                (re.compile(r"^\{[Cc][Rr][Yy][Pp][Tt]\}\$2[abxy]?\$\s*\+?([0-9_]+)"), "int", 8),
+                (re.compile(r"^bcrypt\$\$2[abxy]?\$\s*\+?([0-9_]+)"), "int", 8),
+                (re.compile(r"^\{[Cc][Rr][Yy][Pp][Tt]\}\$sha1\$\s*\+?([0-9_]+)"), "int", 30000),
+                (re.compile(r"^\{FSHP[^|]*\|[^|]*\|\s*\+?([0-9_]+)"), "int", 30000),
+                (re.compile(r"^pbkdf2_sha1\$\s*\+?([0-9_]+)"), "int", 30000),
+                (re.compile(r"^grub\.pbkdf2\.sha512\.\s*\+?([0-9_]+)"), "int", 30000),
             ]
         from simkit.refmodels.extract import H64
 
@@ -914,6 +928,17 @@ class _StorageRun:
             if verified and changed:
                 via = S if name.startswith("handler") else (self.cc.identify(arg) or "?")
                 if via != S:
+                    if S == "mssql2000" and via == "mssql2005":
+                        # by design of the two formats the first 54 characters of an MS-SQL 2000 record ARE the MS-SQL 2005 hash of the
+                        # same password with the same salt (the 2000 format carries that digest "for forward compatibility")
+                        e5 = extract(d, only=("mssql2005",))
+                        try:
+                            raw = bytes.fromhex(rec["hash"][2:])
+                        except ValueError:
+                            raw = b""
+                        if e5 is not None and e5[2] == raw[2:6] and e5[3] == raw[6:26]:
+                            ctx.probe("mssql2000_prefix_is_mssql2005_hash")
+                            continue
                     # attributed to another scheme of the context: only plaintext could legitimately do that (hash == password)
                     ctx.check(via == "plaintext" and d == pw, "C08", "damaged-record-verifies-under-other-scheme",
                               lambda: f"{d!r} (damaged {S} record of {pw!r}) verified through {via}", **attrs)
